@@ -239,6 +239,14 @@ def check_sequence_keys(ctx, writer_q, reader_q, member_writer, kind):
                 rd = [n for n in ast.walk(r.node) if isinstance(n, ast.Call) and dotted(n.func) == "sorted"]
                 ctx.violate("IOAGREE", site, (w, where), f"{detail}: members are written under sequence numbers without zero padding but read back in sorted key order — 'x_10' sorts before 'x_2', so collections with more than 10 members come back in a different order")
                 return
+    # the reader treats every top-level key of the file as a member: the writer may create nothing else at top level
+    extra = [c_ for c_ in wv.calls(nested=True) if isinstance(c_.func, ast.Attribute) and c_.func.attr in ("create_dataset", "create_group", "require_dataset", "require_group") and U(c_.func.value) == "fp"]
+    extra += [s_ for s_ in wv.statements() if isinstance(s_, ast.Assign) and isinstance(s_.targets[0], ast.Subscript) and U(s_.targets[0].value) == "fp"]
+    if extra:
+        ctx.violate("IOAGREE", site + ":top-level", (w, extra[0]), f"`{U(extra[0])[:70]}` stores something else than a member at the top level of the file: the reader iterates over all top-level keys "
+                    "and interprets each as a member, so reading such a file raises or returns a spurious member")
+    else:
+        ctx.hold("IOAGREE", site + ":top-level", w, "only members are stored at the top level of the file (additional information goes to attributes)")
     rd = [n for n in ast.walk(r.node) if isinstance(n, ast.Call) and dotted(n.func) == "sorted" and n.args and U(n.args[0]) in ("fp.keys()", "fp", "list(fp.keys())", "list(fp)")]
     keyed = [n for n in rd if n.keywords or len(n.args) > 1]
     if ok and keyed:
@@ -421,7 +429,16 @@ def check_layouts(ctx, rule="LAYOUT"):
 
                     bnd, unres = call_bindings(view(m, init), sup[0], pinit, skip_self=True)
                     shared = [p_ for p_ in params if p_ in [q_ for q_ in pinit.all_params if q_ != "self"]]
+                    iv_ = view(m, init)
                     dropped = [p_ for p_ in shared if p_ not in bnd or p_ not in names_in(bnd[p_])]
+                    # … and hands them on as given: a parameter rebound before the call (padded, clipped, converted) changes what the caller asked for
+                    rebound = [p_ for p_ in shared if p_ in bnd and isinstance(bnd[p_], ast.Name) and bnd[p_].id == p_
+                               and not all(d_ is iv_.cfg.entry for d_ in iv_.defs_reaching(p_, sup[0]))]
+                    if rebound and not dropped:
+                        ctx.violate(rule, f"{ci.qualname}:ctor-chain", (init, sup[0]), f"the constructor rebinds {rebound} before handing it to super().__init__: the stored value is not the one "
+                                    "the caller supplied (e.g. amplitudes padded to another length: the droplet has more amplitudes than requested)")
+                        n += 1
+                        continue
                     if not unres:
                         ctx.decide(not dropped, rule, f"{ci.qualname}:ctor-chain", (init, sup[0]),
                                    f"super().__init__ receives every shared parameter {shared}",
@@ -625,3 +642,36 @@ def _precedes(fv, a, b):
     si = stmt_index(fv)
     ta = top_stmt(si, a)
     return fv.dominates(ta, b)
+
+
+def check_readers_total(ctx, rule="IOAGREE"):
+    """A reader accepts everything the matching writer produces, in particular empty collections and collections of empty
+    members: a consistency check added to a reader may not raise when the quantity it inspects is derived from *no* member
+    (a set of dimensions of the non-empty tracks is empty for an empty list: `len(dims) != 1` raises)."""
+    from ..astutil import mini_eval
+
+    m = ctx.model
+    for fi in m.all_functions():
+        short = fi.qualname.split(".")[-1]
+        if short not in ("from_file", "_from_hdf_dataset") or not fi.qualname.startswith("droplets.") or fi.module.name == "droplets.droplets":
+            continue
+        fv = view(m, fi)
+        si = stmt_index(fv)
+        bad = None
+        for r in [s_ for s_ in fv.statements() if isinstance(s_, ast.Raise)]:
+            for t_, p_ in si.effective_guards(r):
+                for c_ in [x_ for x_ in ast.walk(t_) if isinstance(x_, ast.Call) and dotted(x_.func) == "len" and x_.args and isinstance(x_.args[0], ast.Name)]:
+                    dv = fv.single_def_value(c_.args[0].id, r)
+                    if dv is None or not isinstance(dv[0], (ast.SetComp, ast.ListComp, ast.GeneratorExp, ast.DictComp)):
+                        continue
+                    # outcome of the guard when the comprehension selects nothing
+                    try:
+                        txt = U(t_).replace(U(c_), "LEN0")
+                        val = bool(mini_eval(ast.parse(txt, mode="eval").body, {"LEN0": 0}))
+                    except (ValueError, SyntaxError):
+                        continue
+                    if val == p_:
+                        bad = (r, t_)
+        ctx.decide(bad is None, rule, f"{fi.qualname}:total", (fi, bad[0]) if bad else fi, "no consistency check of the reader raises for an empty collection",
+                   f"`{U(bad[1])[:60] if bad else ''}` is {'true' if bad else ''} when no member contributes (empty collection / only empty members), so reading a file that the writer produced "
+                   "for such a collection raises instead of returning it")
